@@ -219,22 +219,31 @@ class Pattern:
             When implementing new Patterns, this may require storing some state variables
             to be stored.
         """
+        def reset_value(value):
+            #------------------------------------------------------------------------
+            # reset whatever Pattern.value() would advance: a pattern, or the
+            # patterns held inside a (possibly nested) tuple
+            #------------------------------------------------------------------------
+            if isinstance(value, Pattern):
+                value.reset()
+            elif isinstance(value, tuple):
+                for element in value:
+                    reset_value(element)
+
         fields = vars(self)
         for name, field in list(fields.items()):
-            if isinstance(field, Pattern):
-                field.reset()
             #------------------------------------------------------------------------
             # look through list items and reset anything in here too
             # (needed to reset items in PConcat)
             #------------------------------------------------------------------------
-            elif isinstance(field, list):
+            if isinstance(field, list):
                 for item in field:
-                    if isinstance(item, Pattern):
-                        item.reset()
+                    reset_value(item)
             elif isinstance(field, dict):
                 for item in list(field.values()):
-                    if isinstance(item, Pattern):
-                        item.reset()
+                    reset_value(item)
+            else:
+                reset_value(field)
 
     def append(self, other: Pattern) -> PConcatenate:
         """
